@@ -135,8 +135,8 @@ def cacheHit (s : FileSet) (p : Pos) : Option Nat :=
     | none => none
     | some f => if f.base ≤ p ∧ p ≤ f.base + f.size then some li else none
 
-/-- `(*SourceFileSet).file`: index of the file containing `p` and the set with the
-    updated `LastFile` cache. -/
+/-- `(*SourceFileSet).file`: index of the file containing `p` (the set is returned unchanged:
+    only `AddFile` sets the `LastFile` cache) -/
 def fileOf (s : FileSet) (p : Pos) : Res (Option Nat × FileSet) :=
   match cacheHit s p with
   | some li => pure (some li, s)
@@ -146,7 +146,8 @@ def fileOf (s : FileSet) (p : Pos) : Res (Option Nat × FileSet) :=
       match s.files[i.toNat]? with
       | none => .panic "index out of range"
       | some f =>
-        if p ≤ f.base + f.size then pure (some i.toNat, { s with last := some i.toNat })
+        -- since fix 957f1cc the lookup no longer writes the LastFile cache (the set is shared by all VMs)
+        if p ≤ f.base + f.size then pure (some i.toNat, s)
         else pure (none, s)
     else pure (none, s)
 
